@@ -147,6 +147,8 @@ func checkC07(c *Ctx) {
 	r.Rule("R07k", "codec collectors visit nested declarations unconditionally (shared with C04/R04i): a nested annotated message gets the codec that writes the declared TypeScript form", 14)
 	collectorRecursion(c, "R07k")
 	c07RootUnwrapPredicate(c)
+	r.Rule("R07m", "reads of the run-wide unwrap table fall back to the descriptor itself (shared with C04/R04j, C15/R15f): an imported wrapper message is written in the unwrapped form the TypeScript type declares", 2)
+	c.checkGlobalTableReads("R07m")
 	c07Presence(c)
 }
 
